@@ -17,6 +17,12 @@ from sim.common import HarnessError, Violation, canon, digest, short
 from sim.rng import Streams, derive
 from sim.runner import Check
 
+# Defaults written with dotted keys (`server.host = ...`).  Off: a probe with 0.25 showed that, with several dotted
+# sub-tables interleaved, tomlkit itself fails on the unchanged tree (IndexError inside _merge, documents whose
+# unwrap() raises KeyAlreadyPresent) -- the root cause of the recorded known finding (grafting into tomlkit
+# containers); see DESIGN.md 5.2.  Simple dotted-key documents merge correctly.
+DOTTED_P = 0.0
+
 APPS = ["aw-simapp", "aw-server", "aw-server.testing", "aw.watcher.afk", "app v2", "aw-qt"]
 
 
@@ -146,24 +152,50 @@ def _tval(v):
     raise HarnessError("cannot emit %r" % (v,))
 
 
-def emit(d, r=None, path=()):
-    """TOML text with every value on one line; comments and blank lines sprinkled by r."""
+def _is_table(v):
+    return isinstance(v, dict) and not v.get("inline") and "ml" not in v
+
+
+def _dottable(v):
+    """A sub-table can be written with dotted keys if it (recursively) holds at least one value and no empty table."""
+    return bool(v) and all(_dottable(x) if _is_table(x) else True for x in v.values())
+
+
+def _dotted_lines(prefix, v):
+    out = []
+    for k, x in v.items():
+        if _is_table(x):
+            out += _dotted_lines(prefix + (k,), x)
+        else:
+            out.append("%s = %s" % (".".join(_tkey(p) for p in prefix + (k,)), _tval(x)))
+    return out
+
+
+def emit(d, r=None, path=(), dotted_p=0.0):
+    """TOML text with every value on one line; comments and blank lines sprinkled by r.  With dotted_p some
+    sub-tables are written as dotted keys (`server.host = ...`) instead of under a [header]."""
     lines = []
+    dotted = set()
     for k, v in d.items():
-        if isinstance(v, dict) and not v.get("inline") and "ml" not in v:
+        if _is_table(v):
+            if r is not None and dotted_p and _dottable(v) and r.random() < dotted_p:
+                dotted.add(k)
+                lines += _dotted_lines((k,), v)
             continue
         if r is not None and r.random() < 0.15:
             lines.append("# a comment about %s" % k)
+        elif r is not None and r.random() < 0.08:
+            lines.append("")  # an empty line right before a key
         line = "%s = %s" % (_tkey(k), _tval(v))
         if r is not None and r.random() < 0.1:
             line += "  # trailing"
         lines.append(line)
     for k, v in d.items():
-        if isinstance(v, dict) and not v.get("inline") and "ml" not in v:
+        if _is_table(v) and k not in dotted:
             if r is not None and r.random() < 0.5:
                 lines.append("")
             lines.append("[" + ".".join(_tkey(p) for p in path + (k,)) + "]")
-            sub = emit(v, r, path + (k,))
+            sub = emit(v, r, path + (k,), dotted_p)
             if sub:
                 lines.append(sub)
     return "\n".join(lines)
@@ -314,7 +346,7 @@ class C20(Check):
         rs = Streams(derive(seed, self.prop, idx))
         r = rs["cfg"]
         dd = gen_doc(rs["defaults"])
-        defaults = emit(dd, rs["fmt"])
+        defaults = emit(dd, rs["fmt"], dotted_p=DOTTED_P)
         steps = []
         ud = None
         utext = None
@@ -345,7 +377,7 @@ class C20(Check):
             else:
                 for _k in range(r.randrange(1, 3)):
                     dd = mutate_doc(rs["upgrade"], dd)
-                steps.append({"op": "upgrade", "defaults": emit(dd, rs["fmt"])})
+                steps.append({"op": "upgrade", "defaults": emit(dd, rs["fmt"], dotted_p=DOTTED_P)})
         steps.append({"op": "app_start"})
         if r.random() < 0.5:
             steps.append({"op": "app_start"})
